@@ -387,8 +387,8 @@ fn stage_failed_end(i: &Input, c: &mut Case) -> Result<(), String> {
 pub const STAGES: &[Stage] = &[Stage { name: "rejected_calls", f: stage }, Stage { name: "rejected_master_end", f: stage_failed_end }];
 
 pub fn run(rc: &mut RunCtx) {
-    rc.run_pt(STAGES[0], rc.pick(120_000, 2_000_000), (96, 640));
-    rc.run_pt(STAGES[1], rc.pick(40_000, 800_000), (96, 500));
+    rc.run_pt(STAGES[0], rc.pick(480_000, 2_000_000), (96, 640));
+    rc.run_pt(STAGES[1], rc.pick(160_000, 800_000), (96, 500));
     rc.require_label("rejected_master_end", "width1_content_127plus", 300_000);
     for l in ["tag_not_allowed_here", "size_not_representable_in_width", "unknown_size_on_non_master", "malformed_raw_id", "end_of_not_innermost_master", "full_with_invalid_child", "failing_call_inside_open_master"] {
         rc.require_label("rejected_calls", l, 20_000);
